@@ -41,6 +41,9 @@ T = {
     "C16": (True, "exploration", "differential monitor: LinearLabelMapper derivative vs positional-enrichment derivative of the LabelMapper isotopomer model at a constructed metabolic steady state; inverse-map ablation twin for attribution",
             "Networks steady by construction x bijective maps x random isotopomer distributions; stationarity of uniform enrichment = EXT and absence of label without a source. One open known finding (map direction) attributed by the inverse-map twin.",
             "Trusted: LabelMapper (C05), documented reading of maps. Maps restricted to bijections on positions."),
+    "C09": (True, "exploration", "differential monitor: every scan row vs an independent simulation of a fresh copy; schedule perturbation through the public worker= parameter (delays, pid/timing log), emulated core counts, injected failing rows through the public integrator= parameter",
+            "All nine scan / Monte-Carlo entry points, tables mixing parameters and initial values with non-default labels, rows that fail, sequential and parallel execution on 1/2/3/5/16 emulated cores with per-row delays; views are read only after the scan and again after mutating the caller's model. Evidence lists worker pids, completion orders and calls logged.",
+            "Trusted: the independent per-row Simulator run; failures are injected by an integrator wrapper that fails when the row sets kz=0."),
 }
 PENDING_REASON = "check not built yet in this session (work in progress; design in DESIGN.md section 4)"
 
